@@ -100,6 +100,7 @@ VF_SUITE(keys_reinit, c15::exhR_count, c15::exhR_run<XTerm>)
 VF_SUITE(keys_exhaustive7, c15::exhB_count, c15::exhB_run<XTerm>)
 VF_SUITE(keys_random, c15::rnd_count, c15::rnd_run<XTerm>)
 VF_SUITE(keys_longline, c15::long_count, c15::long_run<XTerm>)
+VF_SUITE(keys_deephist, c15::deep_count, c15::deep_run<XTerm>)
 VF_SUITE(sline_exhaustive, c15::slexh_count, c15::slexh_run<XSline>)
 VF_SUITE(sline_random, c15::slrnd_count, c15::slrnd_run<XSline>)
 
